@@ -34,6 +34,9 @@ pub struct Closure {
     /// (skel, gid, assignment) of every injective ground instance
     valid: Vec<(usize, usize, [u8; 8])>,
     pub unions: u64,
+    /// skeletons whose instances are "inserted" (for representedness queries)
+    marked_skels: Vec<bool>,
+    marked_roots: Option<std::collections::HashSet<usize>>,
 }
 
 fn pow(n: usize, k: usize) -> usize {
@@ -42,7 +45,7 @@ fn pow(n: usize, k: usize) -> usize {
 
 impl Closure {
     pub fn new() -> Self {
-        Closure { n: 0, skels: vec![], skel_idx: HashMap::new(), ops: vec![], base: vec![], uf: vec![], built: false, valid: vec![], unions: 0 }
+        Closure { n: 0, skels: vec![], skel_idx: HashMap::new(), ops: vec![], base: vec![], uf: vec![], built: false, valid: vec![], unions: 0, marked_skels: vec![], marked_roots: None }
     }
 
     /// maximum number of free names of any registered skeleton
@@ -98,6 +101,41 @@ impl Closure {
         self.skels.push(Skel { op, k: names.len(), args });
         self.skel_idx.insert(key, id);
         (id, names)
+    }
+
+    /// declare `t` (and its sub-terms, binder bodies included) as inserted
+    pub fn mark_inserted(&mut self, t: &T) {
+        let (s, _) = self.add_term(t);
+        while self.marked_skels.len() < self.skels.len() {
+            self.marked_skels.push(false);
+        }
+        self.marked_skels[s] = true;
+        for a in &t.args {
+            match a {
+                Arg::Child(c) | Arg::Bind(_, c) => self.mark_inserted(c),
+                _ => {}
+            }
+        }
+    }
+
+    /// after close(): is the (registered) term equal to some inserted term, i.e. represented?
+    pub fn represented(&mut self, t: &T) -> bool {
+        if self.marked_roots.is_none() {
+            let mut set = std::collections::HashSet::new();
+            for i in 0..self.valid.len() {
+                let (si, g, _) = self.valid[i];
+                if self.marked_skels.get(si).copied().unwrap_or(false) {
+                    let r = self.find(g);
+                    set.insert(r);
+                }
+            }
+            self.marked_roots = Some(set);
+        }
+        let names = t.fv_ordered();
+        let env: BTreeMap<Name, u8> = names.iter().enumerate().map(|(i, x)| (*x, i as u8)).collect();
+        let g = self.ground(t, &env);
+        let r = self.find(g);
+        self.marked_roots.as_ref().unwrap().contains(&r)
     }
 
     /// allocate the ground universe for pool size n
